@@ -232,14 +232,17 @@ package device
 
 // ---- panic (C13): All Notes Off + 128 explicit Note Offs on the current channel, nothing else; playing state untouched (frame)
 
+// the output of one panic on channel ch: CC 123 then Note Off for each of the 128 notes; nothing else is touched
+//@ pred panicOut(o0 fun[int]Ev, l0 int, o1 fun[int]Ev, l1 int, s0 fun[byte]set[byte], s1 fun[byte]set[byte], ch byte) :=
+//@   l1 == l0 + 129 && o1[l0] == mkev(0xB0 | ch, 123, 0)
+//@   && (forall n int :: 0 <= n && n < 128 ==> o1[l0 + 1 + n] == mkev(0x80 | ch, byte(n), 0))
+//@   && (forall i int :: uint64(i - l0) >= 129 ==> o1[i] == o0[i])
+//@   && s1 == upd(s0, ch, emptyset("set[byte]"))
+
 //@ func (*Device).Panic
 //@   requires wf(d)
 //@   let ch := d.channel
-//@   ensures [C13] outLen == old(outLen) + 129
-//@   ensures [C13] out[old(outLen)] == mkev(0xB0 | ch, 123, 0)
-//@   ensures [C13] forall n int :: 0 <= n && n < 128 ==> out[old(outLen) + 1 + n] == mkev(0x80 | ch, byte(n), 0)
-//@   ensures [C13] forall i int :: uint64(i - old(outLen)) >= 129 ==> out[i] == old(out)[i]
-//@   ensures [C01,C13] sounding == upd(old(sounding), ch, emptyset("set[byte]"))
+//@   ensures [C01,C13] panicOut(old(out), old(outLen), out, outLen, old(sounding), sounding, ch)
 //@   ensures wf(d)
 //@   ensures [C01] old(InvCore(d)) ==> InvCore(d)
 //@   loop 1 invariant note <= 128
@@ -286,3 +289,117 @@ package device
 //@   loop 1 invariant sigs == old(sigs)
 //@   safety [C14]
 //@   modifies sigs
+
+// ---- action dispatch tables (established by NewDevice, never written afterwards)
+
+//@ pred tableOK(d *Device) :=
+//@   d.actionsPress != nil && d.actionsRelease != nil
+//@   && (forall a config.Action :: has(d.actionsPress, a) <==> (a == config.Panic || a == config.MappingUp || a == config.MappingDown
+//@        || a == config.OctaveUp || a == config.OctaveDown || a == config.SemitoneUp || a == config.SemitoneDown
+//@        || a == config.ChannelUp || a == config.ChannelDown || a == config.Multinote || a == config.Learning))
+//@   && d.actionsPress[config.Panic] == fnref("(*Device).Panic")
+//@   && d.actionsPress[config.MappingUp] == fnref("(*Device).MappingUp") && d.actionsPress[config.MappingDown] == fnref("(*Device).MappingDown")
+//@   && d.actionsPress[config.OctaveUp] == fnref("(*Device).OctaveUp") && d.actionsPress[config.OctaveDown] == fnref("(*Device).OctaveDown")
+//@   && d.actionsPress[config.SemitoneUp] == fnref("(*Device).SemitoneUp") && d.actionsPress[config.SemitoneDown] == fnref("(*Device).SemitoneDown")
+//@   && d.actionsPress[config.ChannelUp] == fnref("(*Device).ChannelUp") && d.actionsPress[config.ChannelDown] == fnref("(*Device).ChannelDown")
+//@   && d.actionsPress[config.Multinote] == fnref("NewDevice$1") && d.actionsPress[config.Learning] == fnref("(*Device).CCLearningOn")
+//@   && (forall a config.Action :: has(d.actionsRelease, a) <==> a == config.Learning)
+//@   && d.actionsRelease[config.Learning] == fnref("(*Device).CCLearningOff")
+
+//@ func (*Device).invokeActionPress
+//@   requires wf(d) && tableOK(d)
+//@   ensures [C04] d.octave == (if action == config.OctaveUp && old(d.octave) < 127 then old(d.octave) + 1 else if action == config.OctaveDown && old(d.octave) > -128 then old(d.octave) - 1 else d.octave)
+//@   ensures [C04] action != config.OctaveUp && action != config.OctaveDown ==> d.octave == old(d.octave)
+//@   ensures [C04] d.semitone == (if action == config.SemitoneUp && old(d.semitone) < 127 then old(d.semitone) + 1 else if action == config.SemitoneDown && old(d.semitone) > -128 then old(d.semitone) - 1 else d.semitone)
+//@   ensures [C04] action != config.SemitoneUp && action != config.SemitoneDown ==> d.semitone == old(d.semitone)
+//@   ensures [C04] d.channel == (if action == config.ChannelUp && old(d.channel) != 15 then old(d.channel) + 1 else if action == config.ChannelDown && old(d.channel) != 0 then old(d.channel) - 1 else old(d.channel))
+//@   ensures [C04] d.mapping == (if action == config.MappingUp && old(d.mapping) != len(d.config.KeyMappings) - 1 then old(d.mapping) + 1 else if action == config.MappingDown && old(d.mapping) != 0 then old(d.mapping) - 1 else old(d.mapping))
+//@   ensures [C07] d.ccLearning == (action == config.Learning || old(d.ccLearning))
+//@   ensures [C02,C13] action != config.Panic ==> outLen == old(outLen) && out == old(out) && sounding == old(sounding)
+//@   ensures [C13] action == config.Panic ==> panicOut(old(out), old(outLen), out, outLen, old(sounding), sounding, old(d.channel))
+//@   ensures wf(d)
+//@   ensures [C01] old(InvCore(d)) ==> InvCore(d)
+//@   safety [C04,C13]
+//@   modifies d.octave, d.semitone, d.channel, d.mapping, d.ccLearning, out, outLen, sounding, d.externalNoteTracker, heap("map[byte]map[byte]bool"), heap("map[byte]bool")
+
+//@ func (*Device).invokeActionRelease
+//@   requires wf(d) && tableOK(d)
+//@   ensures [C07] d.ccLearning == (action != config.Learning && old(d.ccLearning))
+//@   ensures wf(d)
+//@   safety [C04]
+//@   modifies d.ccLearning
+
+// ---- key events
+
+// what the kernel delivers for a key (the property's own environment assumption): press/release only, a press only of a key that is up
+//@ pred envKey(d *Device, ie *input.InputEvent) :=
+//@   ie != nil && (ie.Event.Value == 0 || ie.Event.Value == 1) && (ie.Event.Value == 1 ==> !has(d.keyTracker, ie.Event.Code))
+
+// (I1) only held keys are tracked; (I2) action keys never hold notes
+//@ pred keysInv(d *Device) :=
+//@   (forall k evdev.EvCode :: has(d.noteTracker, k) ==> has(d.keyTracker, k))
+//@   && (forall k evdev.EvCode :: has(d.noteTracker, k) ==> !has(d.config.ActionMapping, k))
+//@ pred Inv(d *Device) := InvCore(d) && keysInv(d)
+
+//@ func (*Device).handleKEYEvent
+//@   requires wf(d) && tableOK(d) && ie != nil && (ie.Event.Value == 0 || ie.Event.Value == 1)
+//@   let code := ie.Event.Code
+//@   let press := ie.Event.Value == 1
+//@   let isAction := has(d.config.ActionMapping, code)
+//@   let action := d.config.ActionMapping[code]
+//@   let kt1 := upd(keys(d.keyTracker), code, press)
+//@   let seq := d.config.ExitSequence
+//@   let exits := press && len(seq) > 0 && (forall i int :: 0 <= i && i < len(seq) ==> kt1[seq[i]])
+//@   let tracked := has(d.noteTracker, code)
+//@   let tn := d.noteTracker[code][0]
+//@   let tc := d.noteTracker[code][1]
+//@   let mapped := has(d.config.KeyMappings[d.mapping].Midi[ie.Source.Name], code)
+//@   let key := d.config.KeyMappings[d.mapping].Midi[ie.Source.Name][code]
+//@   let s := int64(key.Note) + 12 * int64(d.octave) + int64(d.semitone)
+//@   let sounds := mapped && s >= 0 && s <= 127
+//@   let n := byte(s)
+//@   let ch := (d.channel + key.ChannelOffset) % 16
+//@   let c := d.activeNotesCounter[ch][n]
+//@   let quiet := d.config.CollisionMode == config.CollisionNoRepeat && c > 0
+//@   let cut := d.config.CollisionMode == config.CollisionInterrupt && c > 0
+//@   let mU := action == config.MappingUp || d.actionTracker[config.MappingUp]
+//@   let mD := action == config.MappingDown || d.actionTracker[config.MappingDown]
+//@   let oU := action == config.OctaveUp || d.actionTracker[config.OctaveUp]
+//@   let oD := action == config.OctaveDown || d.actionTracker[config.OctaveDown]
+//@   let sU := action == config.SemitoneUp || d.actionTracker[config.SemitoneUp]
+//@   let sD := action == config.SemitoneDown || d.actionTracker[config.SemitoneDown]
+//@   let cU := action == config.ChannelUp || d.actionTracker[config.ChannelUp]
+//@   let cD := action == config.ChannelDown || d.actionTracker[config.ChannelDown]
+//@   let pair := (mU && mD) || (oU && oD) || (sU && sD) || (cU && cD)
+//@   ensures [C01,C14] keys(d.keyTracker) == kt1
+//@   ensures [C14] sigs == old(sigs) + (if exits then 1 else 0)
+//@   ensures [C14] exits ==> outLen == old(outLen) && out == old(out) && d.octave == old(d.octave) && d.semitone == old(d.semitone) && d.channel == old(d.channel) && d.mapping == old(d.mapping) && d.ccLearning == old(d.ccLearning)
+//@   ensures [C14] exits ==> keys(d.noteTracker) == old(keys(d.noteTracker)) && keys(d.actionTracker) == old(keys(d.actionTracker)) && vals(d.actionTracker) == old(vals(d.actionTracker))
+//@   ensures [C02] isAction && !(press && action == config.Panic) ==> outLen == old(outLen) && out == old(out)
+//@   ensures [C02] !press && !isAction && !tracked ==> outLen == old(outLen) && out == old(out)
+//@   ensures [C02] !press && !isAction && tracked ==> (outLen == old(outLen) && out == old(out)) || (outLen == old(outLen) + 1 && out == upd(old(out), old(outLen), mkev(0x80 | tc, tn, 0)))
+//@   ensures [C02] !press && !isAction ==> d.octave == old(d.octave) && d.semitone == old(d.semitone) && d.channel == old(d.channel) && d.mapping == old(d.mapping)
+//@   ensures [C01,C02] !press && !isAction ==> !has(d.noteTracker, code)
+//@   ensures [C04] press && !isAction && !exits && !sounds ==> outLen == old(outLen) && out == old(out)
+//@   ensures [C04] press && !isAction && !exits && sounds && !quiet && !cut ==> outLen == old(outLen) + 1 && out == upd(old(out), old(outLen), mkev(0x90 | ch, n, d.velocity))
+//@   ensures [C04] press && !isAction && !exits && sounds && cut ==> outLen == old(outLen) + 2 && out[old(outLen) + 1] == mkev(0x90 | ch, n, d.velocity)
+//@   ensures [C04] press && !isAction ==> d.octave == old(d.octave) && d.semitone == old(d.semitone) && d.channel == old(d.channel) && d.mapping == old(d.mapping) && d.velocity == old(d.velocity)
+//@   ensures [C04] press && isAction && !exits && mU && mD ==> d.mapping == 0 && d.octave == old(d.octave) && d.semitone == old(d.semitone) && d.channel == old(d.channel)
+//@   ensures [C04] press && isAction && !exits && !(mU && mD) && oU && oD ==> d.octave == 0 && d.mapping == old(d.mapping) && d.semitone == old(d.semitone) && d.channel == old(d.channel)
+//@   ensures [C04] press && isAction && !exits && !(mU && mD) && !(oU && oD) && sU && sD ==> d.semitone == 0 && d.mapping == old(d.mapping) && d.octave == old(d.octave) && d.channel == old(d.channel)
+//@   ensures [C04] press && isAction && !exits && !(mU && mD) && !(oU && oD) && !(sU && sD) && cU && cD ==> d.channel == 0 && d.mapping == old(d.mapping) && d.octave == old(d.octave) && d.semitone == old(d.semitone)
+//@   ensures [C02,C04] press && isAction && !exits && pair ==> outLen == old(outLen) && out == old(out)
+//@   ensures [C04] press && isAction && !exits && !pair && action == config.OctaveUp && old(d.octave) < 127 ==> d.octave == old(d.octave) + 1
+//@   ensures [C04] press && isAction && !exits && !pair && action == config.OctaveDown && old(d.octave) > -128 ==> d.octave == old(d.octave) - 1
+//@   ensures [C04] press && isAction && !exits && !pair && action == config.SemitoneUp && old(d.semitone) < 127 ==> d.semitone == old(d.semitone) + 1
+//@   ensures [C04] press && isAction && !exits && !pair && action == config.SemitoneDown && old(d.semitone) > -128 ==> d.semitone == old(d.semitone) - 1
+//@   ensures [C04] press && isAction && !exits && !pair && action == config.ChannelUp ==> d.channel == (if old(d.channel) == 15 then 15 else old(d.channel) + 1)
+//@   ensures [C04] press && isAction && !exits && !pair && action == config.ChannelDown ==> d.channel == (if old(d.channel) == 0 then 0 else old(d.channel) - 1)
+//@   ensures [C04] press && isAction && !exits && !pair && action == config.MappingUp ==> d.mapping == (if old(d.mapping) == len(d.config.KeyMappings) - 1 then old(d.mapping) else old(d.mapping) + 1)
+//@   ensures [C04] press && isAction && !exits && !pair && action == config.MappingDown ==> d.mapping == (if old(d.mapping) == 0 then 0 else old(d.mapping) - 1)
+//@   ensures [C13] press && isAction && !exits && !pair && action == config.Panic ==> panicOut(old(out), old(outLen), out, outLen, old(sounding), sounding, old(d.channel))
+//@   ensures [C13] press && isAction && !exits && !pair && action == config.Panic ==> keys(d.noteTracker) == old(keys(d.noteTracker)) && vals(d.noteTracker) == old(vals(d.noteTracker)) && d.octave == old(d.octave) && d.semitone == old(d.semitone) && d.channel == old(d.channel) && d.mapping == old(d.mapping)
+//@   ensures wf(d) && tableOK(d)
+//@   ensures [C01] old(Inv(d)) && old(envKey(d, ie)) ==> Inv(d)
+//@   safety [C01,C05]
+//@   modifies d.keyTracker[_], d.actionTracker[_], d.noteTracker[_], d.activeNotesCounter[_][_], d.octave, d.semitone, d.channel, d.mapping, d.ccLearning, d.multiNote, heap("[]int"), heap("*[1]int"), out, outLen, sounding, sigs, d.externalNoteTracker, heap("map[byte]map[byte]bool"), heap("map[byte]bool")
